@@ -5,6 +5,7 @@
 -/
 import Lean.Data.Json
 import BiomModel.Basic
+import BiomModel.Sparse
 open Lean
 
 namespace Biom.Codec
@@ -109,6 +110,20 @@ def tableToJson (t : Table Rat) : Json :=
     ("omd", optToJson (fun m => .arr (m.map mdToJson).toArray) t.omd),
     ("smd", optToJson (fun m => .arr (m.map mdToJson).toArray) t.smd),
     ("type", optToJson Json.str t.ttype)]
+
+/-- flat compressed matrix: {"nMajor":…, "nMinor":…, "indptr":[…], "indices":[…], "data":["p/q",…]} -/
+def asCS (j : Json) : R (CS Rat) := do
+  pure { nMajor := (← natF j "nMajor"), nMinor := (← natF j "nMinor"),
+         indptr := (← listF asNat j "indptr"), indices := (← listF asNat j "indices"),
+         data := (← listF asRat j "data") }
+
+def csToJson (cs : CS Rat) : Json :=
+  Json.mkObj [("nMajor", toJson cs.nMajor), ("nMinor", toJson cs.nMinor), ("indptr", natsToJson cs.indptr),
+    ("indices", natsToJson cs.indices), ("data", ratsToJson cs.data)]
+
+def exceptToJson (f : β → Json) : Except Err β → Json
+  | .ok x => Json.mkObj [("ok", f x)]
+  | .error e => Json.mkObj [("error", e.name)]
 
 def errToJson (e : Err) : Json := Json.mkObj [("error", e.name)]
 
